@@ -918,6 +918,16 @@ Section Send.
     pose proof (proj1 (Forall_forall _ _) Hlive s Hs) as [[_ [[_ [S2 S3]] _]] [_ [H5 H6]]]. auto.
   Qed.
 
+  (* every live stream of every reachable state satisfies the index invariant (so the search and lookup
+     theorems apply to it) *)
+  Theorem reachable_inv n0 ops :
+    exists sv evs, run (server0 n0) ops = Ok (sv, evs) /\ forall s, In s (sv_streams sv) -> inv (sv_all sv) s.
+  Proof.
+    destruct (run_preserves ops (server0 n0) [] (SInv_init n0)) as [sv [evs [Hr [Hlive _]]]]. cbn [app] in Hlive.
+    exists sv, evs. split; [exact Hr|]. intros s Hs.
+    exact (proj1 (proj1 (proj1 (Forall_forall _ _) Hlive s Hs))).
+  Qed.
+
   (* ------------------------------------------------------------------ ids are announced before they are used *)
   Fixpoint well_announced (seen : list N) (evs : list event) : Prop :=
     match evs with
